@@ -14,4 +14,7 @@ func Register() {
 	rig.Register(&rig.Spec{Prop: "C26", Level: "exploration", Stages: []rig.Stage{
 		{Name: "differential", Fn: c26, TimeoutQuick: 20 * time.Minute, TimeoutThorough: 6 * time.Hour},
 	}})
+	rig.Register(&rig.Spec{Prop: "C36", Level: "exploration", Stages: []rig.Stage{
+		{Name: "roundtrip", Fn: c36, TimeoutQuick: 25 * time.Minute, TimeoutThorough: 6 * time.Hour},
+	}})
 }
